@@ -178,6 +178,58 @@ struct list_walk<fm::detail::small_free_memory_list>
     static const int link_bytes = 1;
 };
 
+
+    //=== free nodes in list order (for the deliberately invalid double release of C16) ===//
+    inline void collect_free(fm::detail::free_memory_list& l, std::vector<u8*>& out)
+    {
+        std::size_t n = 0;
+        for (char* cur = l.first_; cur && n < 64; cur = fm::detail::list_get_next(cur), ++n)
+            out.push_back(reinterpret_cast<u8*>(cur));
+    }
+    inline void collect_free(fm::detail::ordered_free_memory_list& l, std::vector<u8*>& out)
+    {
+        char* prev = l.begin_node();
+        char* cur  = fm::detail::xor_list_get_other(prev, nullptr);
+        char* end  = l.end_node();
+        std::size_t n = 0;
+        while (cur != end && n++ < 64)
+        {
+            out.push_back(reinterpret_cast<u8*>(cur));
+            fm::detail::xor_list_iter_next(cur, prev);
+        }
+    }
+    inline void collect_free(fm::detail::small_free_memory_list& l, std::vector<u8*>& out)
+    {
+        for (auto c = l.base_.next; c != &l.base_ && out.size() < 64; c = c->next)
+        {
+            u8*      mem = reinterpret_cast<u8*>(c) + fm::detail::chunk_memory_offset;
+            unsigned idx = c->first_free;
+            unsigned cnt = 0;
+            while (idx != c->no_nodes && cnt++ < 8)
+            {
+                out.push_back(mem + idx * l.node_size_);
+                idx = mem[idx * l.node_size_];
+            }
+        }
+    }
+    template <class List>
+    struct list_kind
+    {
+        static const bool double_free_checked = cfg_dd;
+        static const bool is_small            = false;
+    };
+    template <>
+    struct list_kind<fm::detail::free_memory_list>
+    {
+        static const bool double_free_checked = false; // the unordered list has no check
+        static const bool is_small            = false;
+    };
+    template <>
+    struct list_kind<fm::detail::small_free_memory_list>
+    {
+        static const bool double_free_checked = cfg_dd;
+        static const bool is_small            = true;
+    };
 } // namespace verif
 
 #endif
